@@ -10,7 +10,7 @@ TECHNIQUE = (
     'static analysis: sibling agreement of cache-path expressions (after definition substitution), CFG dominance of the version guard, publish-after-conversion ordering in the loader, guard facts for the lazy mode, dead-store check for the path-keyed in-process cache, atomic-publish / tolerant-read pattern check for both cache locations, exception-escape check of directory creation (check-then-create race) ; read-to-update must-reach analysis (with emptiness facts) of a streaming hash helper'
 )
 EXPLANATION = (
-    "R1: reader (_get_cached) and writer (_write_in_cache) derive the companion and home cache paths by the same expressions from a digest of the file's bytes; the digest covers ALL bytes: either hashlib.<algo>(<whole content>) in one expression or a helper in which every block obtained from <file>.read(...) reaches <hash>.update(block) on every CFG path before it is overwritten or the function ends, unless a branch has established that the block is empty. R2: every value returned from the cache reader is dominated by the internal_version == INTERNAL_VERSION test and the loader stamps that constant before publishing. R3: in the loader's building branch no store into self._data follows the cache write. R4: cache read, cache write and in-process cache accesses are all guarded by `not lazy`. R5: a value read from the path-keyed in-process cache reaches the object's state only if it is overwritten (dead) or re-validated against the content hash on every path. R6: for both cache locations the read is tolerant - pickle.load inside a handler that falls back to rebuilding and covers at least UnpicklingError/PickleError AND EOFError (0-byte file, header only, cut at a frame boundary) - or the publish is atomic AND durable (unique temporary name, fsync, os.replace); atomic publish without fsync is credited but not sufficient, because after a machine crash the rename can be on disk before the data. R7: every directory creation reachable from the cache writer passes exist_ok=True or sits in a handler for FileExistsError/OSError (a check-then-create sequence is a race between cold-starting processes)."
+    "R1: reader (_get_cached) and writer (_write_in_cache) derive the companion and home cache paths by the same expressions from a digest of the file's bytes; the digest covers ALL bytes: either hashlib.<algo>(<whole content>) in one expression or a helper in which every block obtained from <file>.read(...) reaches <hash>.update(block) on every CFG path before it is overwritten or the function ends, unless a branch has established that the block is empty. R2: every value returned from the cache reader is dominated by the internal_version == INTERNAL_VERSION test and the loader stamps that constant before publishing. R3: in the loader's building branch no store into self._data follows the cache write. R4: cache read, cache write and in-process cache accesses are all guarded by `not lazy`. R5: a value read from the path-keyed in-process cache reaches the object's state only if it is overwritten (dead) or re-validated against the content hash on every path. R6: for both cache locations the read is tolerant - pickle.load inside a handler that falls back to rebuilding and covers at least UnpicklingError/PickleError AND EOFError (0-byte file, header only, cut at a frame boundary) - or the publish is atomic AND durable (unique temporary name, fsync, os.replace); atomic publish without fsync is credited but not sufficient, because after a machine crash the rename can be on disk before the data. R7: every directory creation reachable from the cache writer passes exist_ok=True or sits in a handler for FileExistsError/OSError (a check-then-create sequence is a race between cold-starting processes). R8: every file deletion in MachineModel targets the process-unique temporary name created there (a name bound by iterating a glob / directory listing also matches the finished temporary files of other processes racing on the same cache) and tolerates the file's absence after the rename."
 )
 NOT_DECIDED = "Actual crash points, interleavings of racing processes and directory-permission scenarios (behavioural)."
 ASSUMPTIONS = [
@@ -282,6 +282,73 @@ def _content_key(ctx, f, role_text, raw_value):
             if ok is not None:
                 return ok, "%s: %s" % (f.qname, why)
     return None, "cache key `%s` is neither hashlib.<algo>(<file bytes>).hexdigest() nor a helper that could be analysed" % t
+
+
+def _r8(ctx):
+    """Only this process's own temporary file is ever deleted by the cache code."""
+    ctx.rule("R8", "the cache code deletes nothing but its own process-unique temporary file, and tolerates its absence")
+    cls = ctx.repo.cls("MachineModel")
+    n = 0
+    for mname, f in sorted(cls.methods.items()):
+        flow = C.flow_of(f)
+        cfg = C.cfg_of(f)
+        for c in ast.walk(f.node):
+            if not isinstance(c, ast.Call):
+                continue
+            name = pm.call_name(c) or ""
+            tgt = None
+            if isinstance(c.func, ast.Attribute) and c.func.attr in ("unlink", "rmdir") and not name.startswith(("os.", "shutil.")):
+                tgt = c.func.value
+            elif name in ("os.remove", "os.unlink", "os.rmdir", "shutil.rmtree", "os.removedirs") and c.args:
+                tgt = c.args[0]
+            if tgt is None:
+                continue
+            n += 1
+            ctx.touch(f)
+            # what is deleted: a name bound by iterating a directory listing / glob matches files of OTHER processes too
+            loops = [l for l in C.enclosing_loops(c) if isinstance(l, ast.For)]
+            listing = None
+            for l in loops:
+                names_ = {x.id for x in ast.walk(l.target) if isinstance(x, ast.Name)}
+                if names_ & {x.id for x in ast.walk(tgt) if isinstance(x, ast.Name)}:
+                    it = U(flow.subst(l.iter))
+                    if re.search(r"\.(glob|rglob|iterdir)\(|listdir\(|scandir\(|glob\.glob\(|os\.walk\(", it):
+                        listing = it
+            if listing is not None:
+                ctx.node_bad("R8", f, c, "`%s` deletes every file that `%s` lists: that includes the completely written temporary files of other "
+                             "processes populating the same cache at this moment - their os.replace() then fails with FileNotFoundError "
+                             "(and this loop fails when the other process renames its file between the listing and the unlink)" % (
+                                 U(c)[:80], listing[:100]), instance="deleted file is the process's own temporary file")
+                continue
+            src = U(flow.subst(tgt))
+            own = "getpid()" in src or "uuid" in src or "mkstemp" in src or "NamedTemporaryFile" in src
+            if not own:
+                ctx.unknown("R8", "deleted file is the process's own temporary file", f.where(c),
+                            "`%s` deletes `%s`, which is not recognisably a process-unique temporary name" % (U(c)[:80], src[:100]))
+                continue
+            # after a successful publish the temporary file is gone: the deletion must tolerate that
+            facts = C.norm_facts(cfg.node_of(c))
+            exists = any(pol and t in (C.CT("%s.exists()" % U(tgt)), C.CT("os.path.exists(%s)" % U(tgt)), C.CT("%s.is_file()" % U(tgt)),
+                                       C.CT("os.path.isfile(%s)" % U(tgt)), C.CT("os.path.exists(str(%s))" % U(tgt))) for t, pol in facts)
+            mok = any(k.arg == "missing_ok" and isinstance(k.value, ast.Constant) and k.value.value is True for k in c.keywords)
+            handled = False
+            p_ = C.parent(cfg.node_of(c))
+            while p_ is not None and p_ is not f.node:
+                if isinstance(p_, ast.Try) and any(C.in_subtree(c, b_) for b_ in p_.body):
+                    for h in p_.handlers:
+                        ht = U(h.type) if h.type is not None else "BaseException"
+                        if any(x in ht for x in ("FileNotFoundError", "OSError", "Exception", "BaseException")):
+                            handled = True
+                p_ = C.parent(p_)
+            ctx.judge(exists or mok or handled, True, "R8", "deleted file is the process's own temporary file; its absence is tolerated", f.where(c),
+                      "`%s` runs also after the temporary file was renamed into place: it no longer exists then and the deletion raises "
+                      "FileNotFoundError - every successful cache write ends in an exception" % U(c)[:80], f.qname, "own temporary file " + U(c)[:60])
+    publishes = [c for f in cls.methods.values() for c in ast.walk(f.node) if isinstance(c, ast.Call) and (pm.call_name(c) or "") in (
+        "os.replace", "os.rename")]
+    if publishes:
+        ctx.floor("R8", "file deletions in MachineModel", n, 1)      # the temporary file of the atomic publish is cleaned up
+    elif not n:
+        ctx.ok("R8", "no temporary file is published, nothing is deleted", "")
 
 
 def run(ctx):
@@ -636,3 +703,4 @@ def run(ctx):
     if not made:
         ctx.ok("R7", "the cache writer creates no directory", wr.where())
     ctx.extra["directory_creations"] = [{"where": f.where(c), "call": U(c)[:80]} for f, c in made]
+    _r8(ctx)
